@@ -25,7 +25,7 @@ DTYPES = ("float32", "float64", "uint8")
 
 def REQUIRED(tier):
     return ["running_filter", "running:w>n", "running:even_w", "downsample_1d", "downsample_1d:factor==n", "downsample_2d", "downsample_2d_flat", "kernel_2d_flat",
-            "kernel_parallel", "overflow_probe", "detrend", "deredden", "ts_downsample", "block_downsample", "canary_audits", "input_unchanged_checks", "deredden_exact_after_fast", "detrend_long_series", "regime:2d_second_axis_over_4096"]
+            "kernel_parallel", "overflow_probe", "detrend", "deredden", "ts_downsample", "block_downsample", "canary_audits", "input_unchanged_checks", "deredden_exact_after_fast", "detrend_long_series", "regime:2d_second_axis_over_4096", "running_filter_long_series"]
 
 
 def EXHAUSTIVE(tier):
@@ -40,6 +40,7 @@ def cases(tier, seed):
     for d1 in range(1, 13):
         yield {"kind": "ds2d", "d1": d1, "seed": int(seed)}
     yield {"kind": "detrend", "seed": int(seed)}
+    yield {"kind": "running_long", "n": (1 << 18) + 5001, "ws": [6, 9, 64] if tier == "quick" else [2, 6, 9, 64, 100, 1001], "seed": int(seed)}
     yield {"kind": "detrend_long", "seed": int(seed), "ns": [10007, 55109, 65536, 300000]}
     yield {"kind": "detrend_long", "seed": int(seed) + 1, "ns": [1700000, 2500000]}
     if tier == "thorough":
@@ -120,6 +121,43 @@ def _running(case, ctx, ws=None, n=None):
 
 def _running_big(case, ctx):
     _running(case, ctx, ws=[case["w"]], n=case["n"])
+
+
+def _running_long(case, ctx):
+    """Series of more than 2^18 samples with short even and odd windows (block-wise implementations have seams and halos)."""
+    from numpy.lib.stride_tricks import sliding_window_view
+
+    from sigpyproc.core import stats
+
+    def ref(x64, w, method):
+        lo = w // 2
+        win = sliding_window_view(np.pad(x64, (lo, w - 1 - lo), mode="symmetric"), w)
+        return win.mean(axis=1) if method == "mean" else np.median(win, axis=1)
+
+    rng = np.random.default_rng([case["seed"], 77])
+    small = rng.normal(size=200)
+    for w in (1, 2, 5, 6, 64):       # the vectorised reference is the same function as the element-wise one
+        for method in ("mean", "median"):
+            assert np.allclose(ref(small, w, method), refmodels.running_filter_ref(small, w, method), rtol=0, atol=1e-12)
+    n = int(case["n"])
+    x = (rng.normal(size=n) * 5 + 30).astype(np.float32)
+    x64 = x.astype(np.float64)
+    for w in case["ws"]:
+        for method in ("mean", "median"):
+            ctx.evaluated(); ctx.count("running_filter"); ctx.count("running_filter_long_series")
+            one = dict(case, w=w, method=method)
+            got = np.asarray(stats.running_filter(x, w, method=method), dtype=np.float64)
+            want = ref(x64, w, method)
+            if got.shape != (n,):
+                ctx.violation("running-length[long]", f"n={n} w={w}: output length {got.shape}", one); return
+            # a single-precision running sum drifts by ~eps32*sqrt(n)*|x| along 2.7e5 samples (observed 8e-4 on a level of 30): the mean is judged
+            # against that bound (a window displaced by one sample is off by scatter/w ~ 0.1-1), the median exactly as everywhere else
+            ok = (float(np.max(np.abs(got - want))) <= 4e-7 * np.sqrt(n) * float(np.abs(x64).max())) if method == "mean" else _close(got, want, np.abs(x64).max(), w)
+            if not ok:
+                i = int(np.argmax(np.abs(got - want)))
+                ctx.violation(f"running-values[{method}:long-series:{'even' if w % 2 == 0 else 'odd'}]", f"n={n} w={w} {method}: out[{i}]={got[i]!r}, definition {want[i]!r}", one)
+                return
+    ctx.nontrivial_case(case)
 
 
 def _ds1d(case, ctx):
